@@ -59,7 +59,18 @@ def detect_scratch(sdir, tier, props):
         sh(f"git -C /repo worktree remove --force {wt}")
         shutil.rmtree(wt, ignore_errors=True)
     print(json.dumps(results, indent=1))
+    record(sdir, tier, results)
     return 0 if all(r["rc"] == 1 and any(l.startswith("VIOLATION") for l in r["lines"]) for r in results.values()) else 1
+
+
+def record(sdir, tier, results):
+    mp = os.path.join(sdir, "meta.json")
+    meta = json.load(open(mp))
+    for pid, r in results.items():
+        meta.setdefault("detected_by", {})[f"{pid}/{tier}"] = {
+            "caught": r["rc"] == 1 and any(l.startswith("VIOLATION") for l in r["lines"]),
+            "rc": r["rc"], "lines": r["lines"][:4], "wall_s": r["wall_s"]}
+    json.dump(meta, open(mp, "w"), indent=1)
 
 
 def detect(sdir, tier, props):
@@ -81,10 +92,38 @@ def detect(sdir, tier, props):
         rc, out = sh("git -C /repo status --short")
         assert out.strip() == "", "/repo not restored: " + out
     print(json.dumps(results, indent=1))
+    record(sdir, tier, results)
     return 0 if all(r["rc"] == 1 and any(l.startswith("VIOLATION") for l in r["lines"]) for r in results.values()) else 1
 
 
+def import_seed(pid, n):
+    """copy /tmp/seed/out/<pid>/{mut<n>.diff,demo<n>.py,note<n>.txt} to seeded/<pid>-<n>/ after confirming it"""
+    src = f"/tmp/seed/out/{pid}"
+    dst = os.path.join(ROOT, "seeded", f"{pid}-{n}")
+    os.makedirs(dst, exist_ok=True)
+    shutil.copy(f"{src}/mut{n}.diff", f"{dst}/patch.diff")
+    shutil.copy(f"{src}/demo{n}.py", f"{dst}/demo.py")
+    note = open(f"{src}/note{n}.txt").read() if os.path.exists(f"{src}/note{n}.txt") else ""
+    import io, contextlib
+    buf = io.StringIO()
+    with contextlib.redirect_stdout(buf):
+        rc = confirm(f"{dst}/patch.diff", f"{dst}/demo.py")
+    res = json.loads(buf.getvalue())
+    meta = {"property": pid, "origin": "independent sub-agent given only the property text and a scratch worktree",
+            "needs_to_manifest": note.strip(), "confirmed": res,
+            "what_i_ran": "harness/seedtest.py confirm: scratch worktree of /repo HEAD; demo on pristine tree (exit 0), "
+                          "patch applied, pinned baseline (288 stable tests) via harness/baseline.py, demo again (exit 1)",
+            "detected_by": {}}
+    json.dump(meta, open(f"{dst}/meta.json", "w"), indent=1)
+    print(pid, n, "confirmed" if rc == 0 else "NOT CONFIRMED", json.dumps(res)[:400])
+    if rc != 0:
+        shutil.rmtree(dst)
+    return rc
+
+
 if __name__ == "__main__":
+    if sys.argv[1] == "import":
+        sys.exit(import_seed(sys.argv[2], sys.argv[3]))
     if sys.argv[1] == "confirm":
         sys.exit(confirm(sys.argv[2], sys.argv[3]))
     elif sys.argv[1] == "detect-scratch":
